@@ -544,9 +544,10 @@ def xprops():
     return {p: C.check_props(p) for p in XPROPS}
 
 
-def xchk_line(case, rows=None, trans=None):
+def xchk_line(case, rows=None, trans=None, hist=None):
     """XCHK command of ocaml/esirx_driver.ml: the extracted checkers applied to GIVEN outputs
-    (rows: [(time, [S, I, R])], trans: [(time, src id | None, tgt id)], ids = gc.idmap)"""
+    (rows: [(time, [S, I, R])], trans: [(time, src id | None, tgt id)], hist: {id: [(time, code)]},
+    ids = gc.idmap)"""
     gc = case['gc']; im = gc.idmap
     nl = lambda l: '%d %s' % (len(l or []), ' '.join(str(im[u]) for u in (l or [])))
     toks = ['XCHK', gc.tokens(), nl(iter_i0(case)), nl(case['r0']), C.qtok(case['tmin']), R.opt_q(case['tmax']),
@@ -560,6 +561,11 @@ def xchk_line(case, rows=None, trans=None):
     else:
         toks.append('1 %d %s' % (len(trans), ' '.join(
             '%s %s %d' % (C.qtok(F(t)), '0' if s is None else '1 %d' % s, v) for t, s, v in trans)))
+    if hist is None or any(isinstance(h, str) for h in hist.values()):
+        toks.append('0')
+    else:
+        n = len(gc.order)
+        toks.append('1 %d %s' % (n, ' '.join('%d %s' % (len(hist[i]), ' '.join('%s %d' % (C.qtok(F(t)), s) for t, s in hist[i])) for i in range(n))))
     return ' '.join(toks)
 
 
@@ -571,7 +577,7 @@ def xlog_line(case):
 
 
 def xchk_parse(line):
-    """'OK okb2=b traj=b|- tx=b|-' -> {'okb2': bool, 'traj': bool|None, 'tx': bool|None} ('fail' on a driver failure)"""
+    """'OK okb2=b traj=b|- tx=b|- cons=b|-' -> {'okb2': bool, 'traj': .., 'tx': .., 'cons': bool|None} ('fail' on a driver failure)"""
     if not line or not line.startswith('OK'):
         return {'fail': line}
     d = {}
@@ -589,28 +595,40 @@ def xchk_domain(case):
 
 def xchk_impl(EoN, sim, cases):
     """run the implementation in both return modes on each case and apply the extracted
-    checkers to ITS outputs: wf_trajb to the plain arrays, tx_validb to transmissions().
+    checkers to ITS outputs: wf_trajb to the plain arrays, tx_validb to transmissions(),
+    consistent_b (Model/Investigation.v) to (node histories of the full-data run, plain arrays).
     Returns [(case, verdict, plain, full)]; verdict as xchk_parse (plus 'impl_failed' when the
     implementation raised or returned unusable outputs: then only okb2 is judged), or {'skip': why}."""
     lines, runs = [], []
     for case in cases:
         if not xchk_domain(case):
-            runs.append((case, {'skip': 'outside esir_okb2'}, None, None)); continue
+            runs.append((case, {'skip': 'outside esir_okb2'}, None, None, {})); continue
         plain = run_impl(EoN, sim, case, [], full=False)
         full = run_impl(EoN, sim, case, [], full=True)
         bad = None
         if plain['status'] != 'OK' or full['status'] != 'OK' or isinstance(plain.get('rows'), (str, tuple)) or isinstance(full.get('trans'), str):
             bad = (plain['status'], plain.get('err'), plain.get('rows') if isinstance(plain.get('rows'), (str, tuple)) else None,
                    full['status'], full.get('err'), full.get('trans') if isinstance(full.get('trans'), str) else None)
-        runs.append((case, bad, plain, full))
-        lines.append(xchk_line(case) if bad else xchk_line(case, plain['rows'], full['trans']))
+        fin = lambda x: x == x and abs(x) != INF
+        nonfin = {}
+        if not bad:
+            # an infinite or NaN time cannot be a rational: such a section is rejected outright
+            if not all(fin(t) for t, _ in plain['rows']): nonfin['traj'] = False
+            if not all(fin(t) for t, _, _ in full['trans']): nonfin['tx'] = False
+            if not all(fin(t) for h in full['hist'].values() if not isinstance(h, str) for t, _ in h): nonfin['cons'] = False
+        runs.append((case, bad, plain, full, nonfin))
+        lines.append(xchk_line(case) if bad else xchk_line(case, None if 'traj' in nonfin else plain['rows'],
+                                                           None if 'tx' in nonfin else full['trans'],
+                                                           None if 'cons' in nonfin else full['hist']))
     outs = C.run_model(lines, XCOMP) if lines else []
     it = iter(outs)
     res = []
-    for c, v, p, f in runs:
+    for c, v, p, f, nonfin in runs:
         if isinstance(v, dict):                      # skipped: outside the domain
             res.append((c, v, p, f)); continue
         d = xchk_parse(next(it))
         if v is not None: d['impl_failed'] = v       # the implementation did not return usable outputs
+        if nonfin and 'fail' not in d:
+            d.update(nonfin); d['nonfinite_time'] = sorted(nonfin)
         res.append((c, d, p, f))
     return res
